@@ -173,6 +173,8 @@ func init() {
 			{"signature": map[string]any{}, "matrix": map[string]any{}, "env": nil},
 			{"cache": nil, "matrix": nil, "signature": nil, "agents": nil},
 			{"env": map[string]any{}, "retry": []any{}, "label": ""},
+			{"contents": "hello", "rem": 1, "remainingfields": []any{1}, "scalar": "x"},
+			{"Contents": map[string]any{"a": 1}, "remainingFields": "x", "rem": map[string]any{}},
 		}
 		for mask := 0; mask < 1024; mask++ {
 			for ti := -1; ti < len(types); ti++ {
